@@ -149,6 +149,8 @@ def same(b, trace):
     for e, o in zip(b["events"], trace[1:]):
         if o["exc"] or o["ops"] != [dict(k=x["k"], n=x["n"], s=list(x["s"])) for x in e["ops"]]:
             return False
+        if b["ansi"] and (o["rows"] != list(e["rows"]) or o["cnt"] != list(e["cnt"])):
+            return False
     return True
 
 
